@@ -63,6 +63,8 @@ def write_case(case, path, out):
     """case: dict(cfg={field:int | field:[ints]}, frames, content=[kind,seed,amp,motion,cut], ...)"""
     L = []
     for k, v in case.get("cfg", {}).items():
+        if k.startswith("__"):
+            continue        # generator bookkeeping (e.g. __excluded__), not a configuration field
         if isinstance(v, (list, tuple)):
             for i, x in enumerate(v):
                 L.append("cfga %s %d %d" % (k, i, x))
